@@ -201,8 +201,8 @@ def replay(path, v, pid=PID, pkg="c13", mode_test="TestReplay$"):
     json.dump(lib, open(libp, "w"))
     r = run_replay(binp, mode_test, inp, libp, out)
     for m in r["mismatches"]:
-        if m.get("class") == "F4":
-            v.notes.append("replay reproduces finding F4: %s" % m["what"])
+        if m.get("class") == "F4" and [f for f in vlib.known_findings(pid) if f["key"] == "F4"]:
+            v.known_finding("F4", "replay reproduces the finding: %s" % m["what"])
             continue
         v.violation("replay: %s at step %d want %s got %s" % (m["what"], m["step"], m.get("want"), m.get("got")), [path])
     log("  replayed %d steps, %d disagreements" % (r["steps"], r["n_mismatches"]))
